@@ -120,7 +120,8 @@ pub fn rl_by_decomposition(bits: &Bits, which: u8, split: &[u8], redundant: bool
 
 pub fn build_kind(bits: &Bits, kind: u8, route: u8, split: &[u8], redundant: bool) -> AnyBv {
     match kind % 3 {
-        0 => AnyBv::B(build_route(bits, route % 5, split)), // the raw-vector and iterator routes
+        // the raw-vector routes (push, set, clear, push_int chunks, pushes with popped junk, complement()) and the iterator routes
+        0 => AnyBv::B(build_route(bits, [0u8, 1, 2, 3, 4, 8, 9, 10][route as usize % 8], split)),
         1 => AnyBv::S(build_sparse(bits.len, &bits.positions(), route % 4)),
         _ => AnyBv::R(rl_by_decomposition(bits, route, split, redundant)),
     }
